@@ -332,5 +332,5 @@ partial def loop (S : Spec) (w : W.World) (h : IO.FS.Stream) (out : IO.FS.Stream
 
 def main : IO Unit := do
   let out ← IO.getStdout
-  loop fastSpec WDriver.emptyWorld (← IO.getStdin) out
+  loop fastSpec W.emptyWorld (← IO.getStdin) out
   out.flush
